@@ -349,20 +349,17 @@ def run(ctx: Context, rep) -> None:
                message="the caller receives the workers' return values")
     res_defs = [n for n in wm.body_nodes() if isinstance(n, ast.Assign) and
                 dotted(n.targets[0]) == "results"]
-    ok_res = False
-    if len(res_defs) == 1 and isinstance(res_defs[0].value, ast.ListComp):
-        lc = res_defs[0].value
-        tgt = lc.generators[0].target
-        if isinstance(tgt, ast.Tuple) and len(tgt.elts) == 2:
-            # [result for _, result in outputs]
-            ok_res = dotted(lc.elt) == dotted(tgt.elts[1])
-        elif isinstance(tgt, ast.Name):
-            # [output[1] for output in outputs]
-            ok_res = isinstance(lc.elt, ast.Subscript) and dotted(
-                lc.elt.value) == tgt.id and isinstance(
-                    lc.elt.slice, ast.Constant) and lc.elt.slice.value == 1
+    # results = second component of every worker output, in output order
+    # (comprehension, loop with append, named or positional access)
+    from sa import collalg as _ca
+    rterm = _ca.CollAlg(wm).env.get("results")
+    rparts = _ca.concat_parts(rterm) if rterm is not None else []
+    ok_res = len(rparts) == 1 and rparts[0][0] == "map" and \
+        rparts[0][1] == ("src", "wrapper_outputs") and \
+        rparts[0][2].replace(" ", "") == "_[1]"
     rep.ob("C09.collect", ok_res, loc=wm.loc(), where=wm.qualname,
-           construct=short(res_defs[0]) if res_defs else "<none>",
+           construct="results = " + (_ca.pretty(rterm)[:100]
+                                     if rterm is not None else "<none>"),
            message="results are the second components, in output order")
     # the parent-side merge (grouping per split, accounting, fresh records)
     from sa.rules import c04
